@@ -62,3 +62,16 @@ pub fn biguint_to_limbs3(x: &BigUint) -> [u64; 3] {
     }
     out
 }
+
+/// Record a non-trivial case for distinct counting, but at most `PER_SHARD_DISTINCT_CAP` per shard
+/// monitor (memory bound; the evidence number is therefore a conservative lower bound, the
+/// unrecorded remainder is visible as `nontrivial_beyond_per_shard_cap`).
+pub const PER_SHARD_DISTINCT_CAP: u64 = 40_000;
+pub fn nontrivial_capped(m: &mut Monitor, sig: &[u8]) {
+    if m.counter("nontrivial_recorded") < PER_SHARD_DISTINCT_CAP {
+        m.nontrivial(sig);
+        m.count("nontrivial_recorded");
+    } else {
+        m.count("nontrivial_beyond_per_shard_cap");
+    }
+}
